@@ -74,7 +74,7 @@ def section():
     r2, s2 = mutant_rows({'M3', 'M4'})
     r3, s3 = mutant_rows({'M5', 'M6'})
     r4, s4 = mutant_rows({'M7', 'M8'})
-    r5, s5 = mutant_rows({'M9', 'M10'})
+    r5, s5 = mutant_rows({'M9', 'M10', 'M11'})
     rr, nr, alarms = refactor_rows()
     out = []
     out.append("## 11. Seeded changes and refactorings: which check catches which, and which stays silent\n")
@@ -195,17 +195,21 @@ rewrite, lines cut into three pieces on the wire, the socket stream up to the en
 {HEAD}
 """ + "\n".join(r4) + "\n")
     if r5:
-        out.append(f"""### 11.5 Rounds 5 and 6 - "an edge of the quantifier / an interaction of two existing features" (all 20 properties)
+        out.append(f"""### 11.5 Rounds 5, 6 and 7 - "an edge of the quantifier / an interaction of two existing features" (all 20 properties), "a dimension the generator keeps constant" (4)
 
 Round 5: twelve properties, while the final self-tests ran; round 6 (the following session): the other eight
-(C02, C03, C04, C07, C08, C15, C18, C20), same brief.  The sub-agents were told the titles of
+(C02, C03, C04, C07, C08, C15, C18, C20), same brief.  Round 7 (M11, four properties: C12, C13, C14, C17): a change that keys on an *input
+dimension a systematic generator keeps constant because it looks irrelevant* (a header field everyone writes the same
+way, the unused top byte of a pointer, the neighbouring channel of a peripheral) - two of the four were missed and
+led to strengthenings (C12: meaningless section-header / symbol fields vary; C17: writes to channel 1's registers),
+one is a wrong JSR target that C13's guests do not exercise and C05 / C08 report.  The sub-agents were told the titles of
 the eight earlier changes and asked for (M9) a natural-looking slip at an extreme-but-legal corner that the
 FOR ALL explicitly includes and (M10) a change that breaks the property only where two existing features
 of the emulator meet (an interrupt next to the operation, pause / resume, a host message in the same poll,
 a sync threshold, the loader's layout, print / log flags, two peripherals at once).  {s5['n']} changes;
 **{s5['own']} are reported by the property's own quick check, {s5['missed_first']} of them only after a strengthening**;
-{s5['notrep']} is not reported by its own property's check (C01-M10: an unwind in run()'s trace line, reported by C15's check after
-a strengthening); {s5['notviol']} judged not to violate the property as stated (C09-M10: a register moved by an instruction that ends in
+{s5['notrep']} are not reported by their own property's check (C01-M10: an unwind in run()'s trace line, reported by C15's check after
+a strengthening; C13-M11: a wrong JSR @ERn target, reported by C05's and C08's checks); {s5['notviol']} judged not to violate the property as stated (C09-M10: a register moved by an instruction that ends in
 an access error).
 
 {HEAD}
